@@ -154,7 +154,13 @@ NewTgClauses(e) ==
   [ C13_new_is_equal_copy |-> RetTg(e) /\ e.ret = e.pre,
     C13_new_shares_no_tier_object |-> ~e.alias ]
 
-IsTgCopyOp(op) == op \in {"cropTg", "eraseTg", "spaceTg", "editTg", "appendTg", "mergeTg", "newTg"}
+(* save (C13): the receiver is unchanged (CopyClauses) and a save that raises leaves the bytes of an existing  *)
+(* destination file as they were; e.filesame is the byte comparison made by the harness                       *)
+SaveTgClauses(e) ==
+  [ C13_failed_save_leaves_destination_untouched |-> (~OkE(e)) => e.filesame,
+    C13_invalid_format_rejected |-> (e.args.fmt = "bogus") => ~OkE(e) ]
+
+IsTgCopyOp(op) == op \in {"cropTg", "eraseTg", "spaceTg", "editTg", "appendTg", "mergeTg", "newTg", "saveTg", "validateTg"}
 
 TgOpClauses(e) ==
   CASE e.op = "addTier" -> FailsOf(AddClauses(e))
@@ -168,6 +174,8 @@ TgOpClauses(e) ==
     [] e.op = "appendTg" -> FailsOf(AppendTgClauses(e))
     [] e.op = "mergeTg" -> FailsOf(MergeTgClauses(e))
     [] e.op = "newTg" -> FailsOf(NewTgClauses(e))
+    [] e.op = "saveTg" -> FailsOf(SaveTgClauses(e))
+    [] e.op = "validateTg" -> {}
     [] OTHER -> {"UNKNOWN_OP"}
 
 TgFails(e) == TgOpClauses(e) \cup (IF IsTgCopyOp(e.op) THEN FailsOf(CopyClauses(e)) ELSE FailsOf(MutClauses(e)))
